@@ -2,6 +2,7 @@
 (virtual-time loop, accepting SMSC).  Observed: state of start(), sending/send_error hook calls in order, submit_sm PDUs on
 the wire.  Compared with Model/Send.v (ser_queue) and checked by an oracle."""
 import asyncio
+import os
 import struct
 from datetime import datetime, timedelta, timezone, tzinfo
 
@@ -55,14 +56,16 @@ def gen_submit(rng, i):
     from aiosmpplib import state as st
     text = rng.choice(TEXTS)
     enc = rng.choice([None] * 10 + ['gsm0338', 'gsm0338', 'ucs2', 'ucs2', 'ascii', 'latin_1', 'klingon', 'octet_unspecified_I', 'gsm0338_packed'])
+    handler = 'strict'
     if rng.random() < 0.08:
         # names Python has a codec for that SMPP has no data_coding for, incl. codecs that are not text encodings at all
         enc = rng.choice(STDLIB_NAMES)
-    handler = 'strict'
+        if rng.random() < 0.5:
+            handler = rng.choice(['replace', 'ignore', 'foo'])
     if enc in (None, 'gsm0338', 'gsm0338_packed') and rng.random() < 0.25:
         handler = rng.choice(['replace', 'ignore', 'foo'])
     auto = rng.random() < 0.45
-    use_payload = auto and rng.random() < 0.2
+    use_payload = (auto and rng.random() < 0.2) or (not auto and rng.random() < 0.12)      # text in message_payload only, also without auto_message_payload
     kw = dict(short_message='' if use_payload else text, message_payload=text if use_payload else '',
               source=PhoneNumber(rng.choice(['', '38599', '38599', '38599', 'ALPHA', 'ALPHA', 'nön', '1' * 20, 'a\x00b']), rng.choice(list(TON)), rng.choice(list(NPI))),
               destination=PhoneNumber(rng.choice(['38591', '1' * 20]), TON.INTERNATIONAL, NPI.ISDN),
@@ -87,6 +90,8 @@ def gen_submit(rng, i):
         else:
             ops.append(OptionalParam(st.ALERT_ON_MESSAGE_DELIVERY, rng.random() < 0.8))
     kw['optional_params'] = ops
+    if ops and rng.random() < 0.1:
+        kw['optional_params'] = tuple(ops)        # whatever container the constructor accepts must survive the segmentation code
     try:
         return SubmitSm(**kw)
     except (ValueError, TypeError):
@@ -190,6 +195,42 @@ def run_session(msgs, default, fail_at=None, bind_eof_on=()):
         undo()
         vsess.finish(loop)
     return obs
+
+
+EXTREME_CHILD = r"""
+import json, resource, signal, sys
+resource.setrlimit(resource.RLIMIT_AS, (3 * 2 ** 30, 3 * 2 ** 30))
+signal.alarm(45)
+sys.path.insert(0, '/verif')
+from aiosmpplib.protocol import SubmitSm
+from aiosmpplib.state import PhoneNumber, OptionalParam
+from aiosmpplib import state as st
+from harness import C06
+tag, value, esm = int(sys.argv[1]), int(sys.argv[2]), int(sys.argv[3])
+mk = lambda j, ops=(), e=0: SubmitSm(short_message='text%d' % j, source=PhoneNumber('38599'), destination=PhoneNumber('38591'), log_id=f'E{j}', esm_class=e, optional_params=list(ops))
+msgs = [mk(0), mk(1, [OptionalParam(tag, value)], esm), mk(2)]
+obs = C06.run_session(msgs, 'gsm0338')
+out = {'start_done': obs['start_done'], 'start_exc': repr(obs['start_exc']), 'sender_raised': [repr(e) for e in obs['sender_raised']],
+       'outcomes': {f'E{j}': [e[0] for e in obs['log'] if e[0] in ('sending', 'send_error') and getattr(e[1], 'log_id', '') == f'E{j}'] for j in range(3)}}
+print('@@' + json.dumps(out))
+"""
+
+
+def extreme_param_session(tag, value, esm):
+    """a queue of three messages whose middle one carries an optional parameter with an extreme value, in a child process with an
+    address-space limit and an alarm: ('ok', observations) or ('died', how)"""
+    import json
+    import subprocess
+    import sys
+    env = dict(os.environ, PYTHONPATH='/repo', PYTHONHASHSEED='0')
+    try:
+        r = subprocess.run([sys.executable, '-c', EXTREME_CHILD, str(tag), str(value), str(esm)], capture_output=True, text=True, timeout=90, env=env)
+    except subprocess.TimeoutExpired:
+        return 'died', 'no end after 90 s'
+    for line in r.stdout.splitlines():
+        if line.startswith('@@'):
+            return 'ok', json.loads(line[2:])
+    return 'died', f'exit code {r.returncode}: {r.stderr[-300:]}'
 
 
 def run_teardown(mk, default='gsm0338', lag=0.0):
@@ -354,6 +395,21 @@ def run(ctx):
             ctx.count('queue_outside_model')
         if i < 1:
             ctx.sample({'messages': [repr(m)[:200] for m in msgs], 'events': [(e[0], e[2]) for e in events]})
+    # ---- optional parameters with extreme values that never reach the wire (SAR parameters are left out of a UDHI message): the queue goes on
+    from aiosmpplib import state as _st
+    for tag, value, esm in ((_st.SAR_TOTAL_SEGMENTS, 10 ** 18, 0x40), (_st.SAR_TOTAL_SEGMENTS, 2 ** 40, 0x40), (_st.SAR_SEGMENT_SEQNUM, 10 ** 18, 0x40),
+                            (_st.SAR_MSG_REF_NUM, 10 ** 30, 0x40), (_st.SAR_TOTAL_SEGMENTS, 10 ** 18, 0)):
+        how, o = extreme_param_session(int(tag), value, esm)
+        ctx.traces += 1
+        ctx.count('extreme_parameter_sessions')
+        ctx.case(('extreme_param', int(tag), value, esm), nontrivial=True)
+        rp = {'scenario': 'extreme_param', 'tag': int(tag), 'value': str(value), 'esm_class': esm}
+        if how == 'died':
+            ctx.violation(f'a queued message with optional parameter {int(tag):#x} = {value} (esm_class {esm:#x}) stalled or killed the process: {o}', rp)
+        elif o['start_done'] or o['sender_raised']:
+            ctx.violation(f'a queued message with optional parameter {int(tag):#x} = {value} ended the session: {o["start_exc"]} {o["sender_raised"][:1]}', rp)
+        elif not o['outcomes']['E2'] or not o['outcomes']['E1']:
+            ctx.violation(f'with optional parameter {int(tag):#x} = {value} on the second message the queue did not go on: {o["outcomes"]}', rp)
     # ---- a message queued while the session is being torn down after a connection loss
     from aiosmpplib.state import PhoneNumber as _PN
     for lag in ([0.0, 0.0, 0.1, 0.3, 0.45, 0.6, 2.0] if ctx.thorough else [0.0, 0.2, 0.45]):
